@@ -519,10 +519,10 @@ def withCgFinish (cg : Val) (r : Res) : Res :=
   | .ok m1 => .ok { m1 with cg := cg }
   | r => r
 
-/-- load_object: `num_objects_this_thread--` on the normal path only -/
-def loadFinish (r : Res) : Res :=
+/-- load_object: `command_giver = save_command_giver; … num_objects_this_thread--;` on the normal path only -/
+def loadFinish (cg : Val) (r : Res) : Res :=
   match r with
-  | .ok m1 => .ok { m1 with loadDepth := m1.loadDepth - 1 }
+  | .ok m1 => .ok { m1 with loadDepth := m1.loadDepth - 1, cg := cg }
   | r => r
 
 /-- destruct_object: `restrict_destruct = save_restrict_destruct` on the normal path only -/
@@ -639,7 +639,7 @@ def execCore : Op → M → Res
   | .throw_ v, m => throwVal v m
   | .raiseLimit, m =>
     raise "*Too long evaluation. Execution aborted." { m with errState := m.errState ||| Gen.C05.esMaxEvalCost }
-  | .load body, m => loadFinish (exec body { m with loadDepth := m.loadDepth + 1 })
+  | .load body, m => loadFinish m.cg (exec body { m with loadDepth := m.loadDepth + 1 })
   | .dhook v body, m => dhookFinish m.restrictDestruct (exec body { m with restrictDestruct := v })
   | .vital isMaster body, m =>
     -- destruct_object (simulate.c): `(++sp)->type = T_ERROR_HANDLER; … = fix_object_names; saved_master_name = …;
